@@ -62,6 +62,14 @@ def gen_fault_spec(rng):
         learners.append(["info", {"tag": f"i{len(learners)}", "every": 1 + rng.randrange(3),
                                   "raise_at": weighted(rng, [(None, 1), (rng.randrange(6), 2)])}])
     evaluators = [X.gen_evaluator(rng) for _ in range(weighted(rng, [(1, 3), (2, 1)]))]
+    if rng.random() < 0.18:
+        # logged flavour: every environment is turned into logged data (different action counts and logging policies give different
+        # logged probabilities) and the triples are judged by off-policy evaluators - one (stateless!) evaluator object for all triples
+        groups = [X._flavour_ops(rng, g, "logged") for g in groups]
+        evaluators = [weighted(rng, [(["rejection", {"seed": weighted(rng, [(None, 2), (3, 1)])}], 3),
+                                     (["seqcb", {"learn": "off", "eval": "ips", "seed": None}], 1),
+                                     (["seqcb", {"learn": "ips", "eval": "ips", "seed": None}], 1)])
+                      for _ in range(weighted(rng, [(1, 3), (2, 1)]))]
     spec = {"envs": groups, "learners": learners, "evaluators": evaluators, "seed": weighted(rng, [(1, 2), (rng.randrange(2, 50), 1)]),
             "quiet": True, "description": None, "flavour": "sim"}
     if rng.random() < 0.5:
@@ -77,7 +85,7 @@ def gen_fault_spec(rng):
 def add_faults(rng, spec):
     kinds = []
     for _ in range(1 + (rng.random() < 0.3)):
-        k = weighted(rng, [("env_read", 4), ("lrn_predict", 3), ("lrn_learn", 3), ("lrn_params", 1), ("evaluator", 2), ("env_params", 1), ("val_params", 1)])
+        k = weighted(rng, [("env_read", 4), ("lrn_predict", 3), ("lrn_learn", 3), ("lrn_params", 1), ("lrn_copy", 1.5), ("evaluator", 2), ("env_params", 1), ("val_params", 1)])
         kinds.append(k)
         if k == "env_read":
             g = spec["envs"][rng.randrange(len(spec["envs"]))]
@@ -92,7 +100,7 @@ def add_faults(rng, spec):
         elif k == "val_params":
             vi = rng.randrange(len(spec["evaluators"]))
             spec["evaluators"][vi] = ["faultyval", {"inner": spec["evaluators"][vi], "fail_after": 10 ** 6, "tag": f"v{vi}", "params_raise": True}]
-        elif k in ("lrn_predict", "lrn_learn", "lrn_params"):
+        elif k in ("lrn_predict", "lrn_learn", "lrn_params", "lrn_copy"):
             where = k.split("_")[1]
             tagged = [g["src"][1]["tag"] for g in spec["envs"]]
             spec["learners"].insert(rng.randrange(len(spec["learners"]) + 1),
@@ -115,9 +123,9 @@ class C03:
     tiers = {"quick": {"runs": 4000, "budget_s": 80, "chunk": 10, "twice_every": 8, "shrink_s": 60},
              "thorough": {"runs": 250000, "budget_s": 840, "chunk": 8, "twice_every": 16, "shrink_s": 180}}
     rule = ("one run = one experiment with a sampled sharing pattern (learner / environment / evaluator objects listed in several "
-            "triples, shared chunk()/cache() prefixes, shuffle fan-out, cross product or tuple list), component failures injected at "
+            "triples, shared chunk()/cache() prefixes, shuffle fan-out, cross product or tuple list; simulated or logged data with off-policy evaluators), component failures injected at "
             "sampled positions (environment read at index k incl. around the 25-item cache slice, learner predict/learn at its k-th "
-            "call for a chosen environment, learner params, evaluator after k rows; none in even-indexed runs), executed under a "
+            "call for a chosen environment, learner params, deep copy of a shared learner, evaluator after k rows; none in even-indexed runs), executed under a "
             "sampled configuration and seeded schedule, compared triple by triple with the alone-run of each triple on pristine "
             "objects; non-trivial = at least two triples with rows or a fired failure; distinct = distinct event-log digest + spec")
     assumptions = ["injected failures are functions of the component's own local history, so alone and together are comparable",
@@ -208,6 +216,17 @@ class C03:
             alone_log = "\n".join(map(str, sink.items))
             if rows_a:
                 n_with_rows += 1
+            l2 = exp2._triples[i][1]
+            lspec = next((spec["learners"][j] for j, l in enumerate(objs2["lrns"]) if l is l2 or getattr(l2, "learner", None) is l), ["?", {}])
+            if lspec[0] == "faulty" and lspec[1]["where"] == "copy" and f"copy:{lspec[1]['tag']}" in tog_injected:
+                # the learner cannot be deep-copied: alone it is not copied at all, listed for several triples the copy raises - which is
+                # this triple's failure (reported, no rows) and nobody else's
+                out["counters"]["fault.shared_learner_copy_raise_fired"] = out["counters"].get("fault.shared_learner_copy_raise_fired", 0) + 1
+                if rows_t:
+                    vios.append(vio("failed_triple_recorded", f"triple #{i} ids={tid}: its learner's deep copy raised, yet {len(rows_t)} rows were recorded"))
+                if f"copy:{lspec[1]['tag']}" not in log_text:
+                    vios.append(vio("exception_not_logged", f"triple #{i} ids={tid}: the learner's deep copy raised but the log does not mention it"))
+                continue
             if eval_injected:
                 n_failed_alone += 1
                 # independent of the alone/together comparison: a failing triple yields nothing
